@@ -351,15 +351,15 @@ func ops() []op {
 		return full(c, rapid.Uint32Range(pc+1, tip).Draw(c.t, "above"))
 	})
 	aggMut("aggregate-beyond-next-parameter-change", func(c *mctx, cert, pc uint32) (*blockchain.AggregateCommit, bool) {
-		nh, err := c.n.Exec.VerifLiskBFT().API().NextHeightBFTParameters(c.n.Store(), cert+1)
-		if err != nil || nh > pc || nh <= cert {
+		nh, ok := c.n.NextParamHeight(cert + 1) // raw key space, independent of the API under test
+		if !ok || nh > pc || nh <= cert {
 			return nil, false
 		}
 		return full(c, rapid.Uint32Range(nh, pc).Draw(c.t, "beyond"))
 	})
 	validAgg := func(c *mctx, cert, pc uint32) (uint32, bool) {
 		hi := pc
-		if nh, err := c.n.Exec.VerifLiskBFT().API().NextHeightBFTParameters(c.n.Store(), cert+1); err == nil && nh-1 < hi {
+		if nh, ok := c.n.NextParamHeight(cert + 1); ok && nh-1 < hi {
 			hi = nh - 1
 		}
 		if hi <= cert {
